@@ -26,6 +26,7 @@ EXPLANATION = (
     " (R8) the result of a helper that returns the parsed object on success and None after collecting an error is stored into / becomes the working object only under a None test. " 
     " R7 also requires the write-back to be conditional on schema.coerce only (not on a dtype comparison, which object-backed dtypes satisfy for any content). " 
     "NOT decided: that the output re-validates (a fixpoint property over values)."
+    " (R9) the result of a component backend's `super().validate(...)` into the array backend (which fills defaults, runs parsers, drops rows) flows into a return value or a store on the working object; IndexBackend.validate only asserts on it (known finding)."
 )
 LEVEL_RULE = "one obligation per stage call / return in the validate methods and parser pipelines"
 FLOORS = {"R1": 30, "R2": 12, "R3": 2, "R4": 2, "R5": 1, "R6": 1, "R7": 3}
@@ -606,9 +607,61 @@ def r8_optional_result_stored(ctx):
     ctx.stats["optional_helper_results"] = n
 
 
+def r9_delegated_result_not_discarded(ctx):
+    """A component backend (Column, Index) delegates the value-level work - default filling, parsers, dropping invalid
+    rows, then the checks - to the array backend and gets the *parsed* object back.  What validate returns has to carry
+    that object: the result of `super().validate(...)` flows into a return value or into a store on the working object.
+    If it is only asserted on, the checks ran on parsed labels the caller never receives: Index(float, default=0.0)
+    validates index [1.0, NaN] and returns it unchanged, and the same schema with the parsing options off rejects it."""
+    from ..util import Expander
+    n = 0
+    for path in ("pandera/backends/pandas/components.py",):
+        m = ctx.ix.module(path)
+        for f in m.all_functions:
+            dele = [c for c in calls_in(f.node) if callee_last(c) == "validate" and isinstance(c.func, ast.Attribute)
+                    and isinstance(c.func.value, ast.Call) and callee_last(c.func.value) == "super"]
+            if not dele:
+                continue
+            # only delegations that land in the array backend (the one that fills defaults / runs the component's parsers);
+            # MultiIndexBackend delegates to the container backend with a schema copy whose levels carry no parsing option
+            bases = [b.name for b in (f.cls.mro() if f.cls is not None and hasattr(f.cls, "mro") else [])][1:] if f.cls is not None else []
+            if f.cls is not None and "ArraySchemaBackend" not in bases:
+                ctx.notes.append(f"R9 not applicable to {f.short}: super().validate is not the array backend ({bases[:1]})")
+                continue
+            ctx.touched(f)
+            for c in dele:
+                st = enclosing_stmt(c)
+                n += 1
+                names = {t.id for t in st.targets if isinstance(t, ast.Name)} if isinstance(st, ast.Assign) else set()
+                used = isinstance(st, ast.Return)
+                # closure of names: anything assigned from them counts as the result too
+                grew = True
+                while grew and names:
+                    grew = False
+                    for a in walk_no_nested(f.node):
+                        if isinstance(a, ast.Assign) and any(isinstance(x, ast.Name) and x.id in names for x in ast.walk(a.value)):
+                            for t in a.targets:
+                                if isinstance(t, ast.Name) and t.id not in names:
+                                    names.add(t.id)
+                                    grew = True
+                                elif isinstance(t, (ast.Attribute, ast.Subscript)):
+                                    used = True
+                for r in walk_no_nested(f.node):
+                    if isinstance(r, ast.Return) and r.value is not None and any(isinstance(x, ast.Name) and x.id in names for x in ast.walk(r.value)):
+                        used = True
+                ctx.ob("R9", f, f"{f.short}: the object the array backend parsed reaches what validate returns", used,
+                       "returned / stored into the working object" if used else
+                       f"`{txt(st)[:60]}`: the parsed object is dropped (only asserted on): defaults and parsers of an Index schema change a temporary Series, the checks "
+                       "pass on it and validate returns the original index - Index(float, default=0.0) returns index [1.0, NaN], which the same schema without default rejects",
+                       f.loc(c))
+    if n < 2:
+        raise AnalysisError(f"component backends: delegating validate calls found: {n}")
+
+
 def run(ctx):
     r4_filter_set(ctx)
     r8_optional_result_stored(ctx)
+    r9_delegated_result_not_discarded(ctx)
     r7_component_writeback(ctx)
     r6_missing_column_runs(ctx)
     r5_container_defaults(ctx)
